@@ -3,6 +3,7 @@ package checks
 import (
 	"fmt"
 	"regexp"
+	"sort"
 	"strconv"
 	"strings"
 
@@ -430,6 +431,22 @@ func c06Check(strat workload.Strategy, pathAware bool, r0 map[string]interface{}
 	return "", ""
 }
 
+func extendPath(p []interface{}, x interface{}) []interface{} {
+	out := make([]interface{}, len(p)+1)
+	copy(out, p)
+	out[len(p)] = x
+	return out
+}
+
+func sortedKeysOf(m map[string]interface{}) []string {
+	ks := make([]string, 0, len(m))
+	for k := range m {
+		ks = append(ks, k)
+	}
+	sort.Strings(ks)
+	return ks
+}
+
 func stripFrag(p []interface{}) []interface{} {
 	var out []interface{}
 	for _, s := range p {
@@ -455,7 +472,7 @@ func (c C06) Run(t *tape.Tape, opt core.RunOpt) (res core.Result) {
 	// reflection: a method whose Go parameter cannot take the null the schema
 	// allows is a failure site of its own (the call is refused)
 	nick := strat == workload.StratReflect && t.Bool(1, 3)
-	req := workload.GenRequest(t, workload.ReqOpt{Strat: strat, NoErrors: true, UniqueKeys: true, NoUnion: pathAware, NoFragments: !pathAware, Nick: nick,
+	req := workload.GenRequest(t, workload.ReqOpt{Strat: strat, NoErrors: true, UniqueKeys: true, NoUnion: pathAware, NoFragments: !pathAware, Nick: nick, Ghost: nick,
 		MultiOp: t.Bool(1, 5), VarInLiteral: strat != workload.StratReflect, ShuffleArgs: true, MaxDepth: 2 + t.Draw(4)})
 	thorough := opt.Tier == "thorough"
 	r0, tr0, pan := resolveTracked(q, strat, req, &workload.FaultPlan{})
@@ -499,8 +516,36 @@ func (c C06) Run(t *tape.Tape, opt core.RunOpt) (res core.Result) {
 				return
 			}
 		}
+		// every position keyed "ghost" (a schema field without a Go field or
+		// method: the binding fails each time it is tried) is null and has its entry
+		var ghosts []string
+		var walk func(v interface{}, path []interface{})
+		walk = func(v interface{}, path []interface{}) {
+			switch tv := v.(type) {
+			case map[string]interface{}:
+				for _, k := range sortedKeysOf(tv) {
+					if k == "ghost" {
+						ghosts = append(ghosts, workload.CanonLite(extendPath(path, k)))
+					}
+					walk(tv[k], extendPath(path, k))
+				}
+			case []interface{}:
+				for i, x := range tv {
+					walk(x, extendPath(path, i))
+				}
+			}
+		}
+		walk(r0["data"], nil)
+		for _, gp := range ghosts {
+			if !seenPath[gp] {
+				res.Violate("C06", "failure_not_reported_exactly_once", fmt.Sprintf("reflection strategy: the field at %s has no Go field or method behind it (binding fails) and is null, but the response has no error entry for it\nrequest (op %q, vars %v):\n%s\nresponse: %s",
+					gp, req.Op, req.Vars, req.Src, workload.CanonLite(r0)), nil)
+				return
+			}
+		}
 		res.NonTrivial = true
-		res.Count("fault_reflective_call_refused_arguments_do_not_fit", len(ea))
+		res.Count("fault_reflective_call_refused_arguments_do_not_fit", len(ea)-len(ghosts))
+		res.Count("fault_reflective_binding_failed_no_go_counterpart", len(ghosts))
 		return
 	}
 	if _, has := r0["errors"]; has {
